@@ -169,6 +169,76 @@ func ruleLevenshtein(c *Ctx, r *Report, funcs []*ssa.Function) {
 	}
 	r.check(len(aliases) == 0, "T4", where, "no second name for the table", "", "the table's map is never stored into another variable: only writes through Levenshtein itself can change it",
 		fmt.Sprintf("the table's map is stored into another variable at %v: edits through that variable change Levenshtein too", aliases))
+	mark := len(r.Obs)
+	ruleLevenshteinShape(c, r, g, inits, where)
+	undecided, violated := 0, 0
+	for _, o := range r.Obs[mark:] {
+		switch o.Verdict {
+		case Undecided:
+			undecided++
+		case Violated:
+			violated++
+		}
+	}
+	if undecided == 0 || violated > 0 {
+		return
+	}
+	// an initialiser of another shape (one loop over all pairs, rows filled by stages, …): the table's content by
+	// constant folding of the package initialiser (E-FOLD), compared entry by entry
+	entries, why := c.foldedMap("align", g)
+	if why != "" {
+		r.Obs[len(r.Obs)-1].Reason += "; constant folding of the initialiser: " + why
+		return
+	}
+	r.rollback(mark)
+	seen := map[[2]int64]bool{}
+	var badDiag, badOff, badKey []string
+	for _, e := range entries {
+		k, ok := e.k.(*cAgg)
+		if !ok || len(k.els) != 2 {
+			badKey = append(badKey, fmt.Sprint(e.k))
+			continue
+		}
+		a, ok1 := k.els[0].(int64)
+		b, ok2 := k.els[1].(int64)
+		v, ok3 := e.v.(float64)
+		if !ok1 || !ok2 || !ok3 {
+			badKey = append(badKey, fmt.Sprintf("{%v,%v}: %v", k.els[0], k.els[1], e.v))
+			continue
+		}
+		seen[[2]int64{a, b}] = true
+		if a == b && v != 0 && len(badDiag) < 4 {
+			badDiag = append(badDiag, fmt.Sprintf("{%d,%d}: %v", a, b, v))
+		}
+		if a != b && v != -1 && len(badOff) < 4 {
+			badOff = append(badOff, fmt.Sprintf("{%d,%d}: %v", a, b, v))
+		}
+	}
+	pos := c.pos(g.Pos())
+	r.check(len(badKey) == 0 && len(seen) == 256*256, "T4", where, "coverage", pos,
+		"the folded initialiser stores an entry for every one of the 65536 byte pairs",
+		fmt.Sprintf("the folded initialiser stores %d of 65536 byte pairs (entries that are not constants: %v): pairs left out score 0 through the map's zero value or panic in Get", len(seen), badKey))
+	r.check(len(badDiag) == 0, "T4", where, "diagonal", pos, "every {x,x} entry of the folded table is 0", fmt.Sprintf("diagonal entries other than 0: %v", badDiag))
+	r.check(len(badOff) == 0, "T4", where, "off-diagonal", pos, "every {x,y} entry with x != y of the folded table is -1 (also every gap score)", fmt.Sprintf("off-diagonal entries other than -1: %v", badOff))
+}
+
+// ruleLevenshteinShape decides T4 from the shape of the initialiser: two full byte loops, the key made of their
+// variables, 0 stored on the i == j edge and -1 on the other.
+func ruleLevenshteinShape(c *Ctx, r *Report, g *ssa.Global, inits map[*ssa.Function]bool, where string) {
+	type upd struct {
+		mu *ssa.MapUpdate
+		fn *ssa.Function
+	}
+	var ups []upd
+	for f := range inits {
+		instrs(f, func(in ssa.Instruction) {
+			if mu, ok := in.(*ssa.MapUpdate); ok {
+				if isLoadOf(mu.Map, g) {
+					ups = append(ups, upd{mu, f})
+				}
+			}
+		})
+	}
 	// updates made by a helper of the package that an initialiser hands the table to: fillRow(Levenshtein, i)
 	paramArg := map[*ssa.Parameter]ssa.Value{}
 	if len(ups) == 0 {
